@@ -78,7 +78,8 @@ def judge(ctx, case, out, err, rcode, stats):
     for aid, a in acts.items():
         if aid not in ob["begin"]:
             continue
-        cost = a["amount"]
+        # a k-thread execution is ONE action of k * flops requesting k cores (HostCLM03Model::execute_thread)
+        cost = a["amount"] * (a["cores"] if a["kind"] == "E" else 1)
         prev_t = ob["begin"][aid]
         samples, segs = [], []
         finished_at = None
@@ -169,9 +170,7 @@ def judge(ctx, case, out, err, rcode, stats):
 
 
 def run(ctx):
-    ctx.simgrid(["simgrid"])
-    ctx.prove()
-    exe = fw.build_harness("res2_load")
+    exe = rc.setup(ctx)
     ctx.cov["rule"] = ("generated workloads: 1-4 hosts (1-4 cores, 1-3 pstates), 0-3 links (SHARED/FATPIPE, latency 0..1), 0-2 disks, 2-7 activities "
                        "(execs with bounds/priorities/several cores, host-to-host comms with optional rate, reads/writes), 0-6 control operations "
                        "(suspend, resume, priority, pstate, bandwidth) and 0-12 unrelated timer events; dyadic amounts (exact in binary64) plus a decimal "
